@@ -1,6 +1,8 @@
 import KitModel.NoPanicTime
 import KitModel.NoPanicKeys
 import KitModel.NoPanicEnc
+import KitModel.NoPanicKW
+import KitModel.NoPanicReflect
 /-!
 Driver for property C07: `kitdrv C07` reads one op per line and answers with the outcome class
 (and the values) the Lean models compute:
@@ -10,6 +12,9 @@ Driver for property C07: `kitdrv C07` reads one op per line and answers with the
   upper r=<int>                                → `ok <hex>` | `ok delegated`
   keyalg data=<hex> / cipher data=<hex>        → `ok <name> <id>` | `err`
   validate kw=<hex> cph=<hex> wfk=<n> np=<n>   → `ok <kw> <cph>` | `err`
+  kwwrap n=<len> / kwunwrap n=<len> intact=<0|1> → `ok <outlen>` | `err` | `panic <why>`   (length-level aeskw)
+  ptrprefix v=<RV>                             → `ok unchanged` | `ok deref` | `panic <why>` (reflect prefix of decodeString)
+     RV ::= zero | nil:<ptr|iface|map|slice|func|chan> | ptr(RV) | iface(RV) | leaf:<kind>
 -/
 namespace Driver.C07
 open Kit Kit.NoPanic
@@ -24,6 +29,47 @@ def showOutcome {α : Type} (f : α → String) : Outcome α → String
 /-- latin-1 view of a byte string; only used for names that are compared with ASCII constants, and
 bytes ≥ 0x80 can never make such a comparison succeed. -/
 def asName (b : Bytes) : String := bytesToString b
+
+open Kit.NoPanic.Reflect in
+/-- parser of the `RV` notation; `fuel` bounds the nesting -/
+def parseRV : Nat → List Char → Option (RV × List Char)
+  | 0, _ => none
+  | fuel + 1, cs =>
+    let startsWith (p : String) : Option (List Char) :=
+      if p.toList.isPrefixOf cs then some (cs.drop p.length) else none
+    let word (rest : List Char) : String × List Char :=
+      (String.ofList (rest.takeWhile fun c => c.isAlphanum), rest.dropWhile fun c => c.isAlphanum)
+    match startsWith "zero" with
+    | some rest => some (.zero, rest)
+    | none =>
+      match startsWith "nil:" with
+      | some rest =>
+        let (w, rest') := word rest
+        let k : Option NK := match w with
+          | "ptr" => some .ptr | "iface" => some .iface | "map" => some .map | "slice" => some .slice
+          | "func" => some .func | "chan" => some .chan | _ => none
+        k.map fun k => (.nilOf k, rest')
+      | none =>
+        match startsWith "leaf:" with
+        | some rest =>
+          let (w, rest') := word rest
+          let k : LK := match w with
+            | "bool" => .bool | "int" => .int | "float" => .float | "string" => .string | "map" => .map
+            | "slice" => .slice | "struct" => .struct | "func" => .func | "chan" => .chan | "array" => .array | _ => .other
+          some (.leaf k, rest')
+        | none =>
+          match startsWith "ptr(" with
+          | some rest =>
+            match parseRV fuel rest with
+            | some (v, ')' :: rest') => some (.ptrTo v, rest')
+            | _ => none
+          | none =>
+            match startsWith "iface(" with
+            | some rest =>
+              match parseRV fuel rest with
+              | some (v, ')' :: rest') => some (.ifaceOf v, rest')
+              | _ => none
+            | none => none
 
 def step (_ : Unit) (line : String) : Unit × String :=
   let l := parseLine line
@@ -63,6 +109,23 @@ def step (_ : Unit) (line : String) : Unit × String :=
       | some kw, some cph, some w, some n =>
         showOutcome (fun (p : String × String) => s!"{p.1} {p.2}") (Enc.manifestValidate (asName kw) w (asName cph) n)
       | _, _, _, _ => "bad-request"
+    | "kwwrap" =>
+      match l.nat? "n" with
+      | some n => showOutcome (fun (k : Nat) => toString k) (KW.wrap n)
+      | none => "bad-request"
+    | "kwunwrap" =>
+      match l.nat? "n", l.nat? "intact" with
+      | some n, some i => showOutcome (fun (k : Nat) => toString k) (KW.unwrap n (i == 1))
+      | _, _ => "bad-request"
+    | "ptrprefix" =>
+      match (l.get? "v").bind fun v => parseRV 64 v.toList with
+      | some (rv, []) =>
+        match Reflect.decodePtrPrefix rv with
+        | .ok none => "ok unchanged"
+        | .ok (some ()) => "ok deref"
+        | .err _ => "err"
+        | .panic w => "panic " ++ w
+      | _ => "bad-request"
     | _ => "bad-request"
   ((), ans)
 
